@@ -44,6 +44,7 @@ type c20Case struct {
 	Per     int   `json:"calls_per_sender"`
 	Streak  int   `json:"refused_dials"`
 	Delays  bool  `json:"delay_injection"`
+	Valid   bool  `json:"session_id_validation,omitempty"`
 }
 
 type c20Call struct {
@@ -70,12 +71,13 @@ func c20Worker(env *fw.Env) {
 func c20One(env *fw.Env, i int64) {
 	r := env.RandAt("hist", i)
 	cs := c20Case{Index: i, Active: i%2 == 0, Senders: []int{1, 2, 4, 8, 16, 32}[r.IntN(6)], Per: 4 + r.IntN(7), Streak: r.IntN(5), Delays: r.IntN(2) == 0}
+	cs.Valid = i%3 == 1 // the optional session-id validation: a foreign-session data frame is still a received data frame
 	env.Begin(i, cs)
 	env.Sample(cs)
 	env.Event("histories", 1)
 	t3 := 200 * time.Millisecond
 	var asyncErrCallbacks atomic.Int64
-	rg, err := newRig(rigOpts{Active: cs.Active, T3: t3, T5: 40 * time.Millisecond, BackoffInit: 10 * time.Millisecond,
+	rg, err := newRig(rigOpts{Active: cs.Active, T3: t3, T5: 40 * time.Millisecond, BackoffInit: 10 * time.Millisecond, ValidateSession: cs.Valid,
 		Extra: []hsms.ConnOption{hsms.WithAsyncSendErrorHandler(func(hsms.Message, error) { asyncErrCallbacks.Add(1) })}})
 	if err != nil {
 		env.Discard()
@@ -307,8 +309,19 @@ func c20One(env *fw.Env, i int64) {
 		_ = pc.Send(peer.Data(5, 1, false, 0x1234, 0xD5100000|uint32(k), c06Body("unsolicited")))
 		env.Event("peer_unsolicited_primaries", 1)
 	}
+	// session-id validation on: a well-formed data frame with a foreign session id is dropped AND answered with one
+	// S9F1 (a data frame of ours); it was still received
+	var s9 int64
+	if cs.Valid {
+		for k := 0; k < 1+int(i%4); k++ {
+			peerDataWritten.Add(1)
+			s9++
+			_ = pc.Send(peer.Data(5, 3, false, 0x4321, 0xD5200000|uint32(k), c06Body("foreign-session")))
+			env.Event("peer_foreign_session_frames", 1)
+		}
+	}
 	count(callsA, &tA)
-	if !quiesce(accepted(callsA), pc) {
+	if !quiesce(accepted(callsA)+s9, pc) {
 		env.Violate("link-dropped", "the fault-free part lost the link", cs)
 		return
 	}
@@ -346,7 +359,7 @@ func c20One(env *fw.Env, i int64) {
 	}
 	check("fault-free", "DataMsgInflightCount", mt.DataMsgInflightCount(), 0)
 	check("fault-free", "DataMsgSendCount", int64(mt.DataMsgSendCount()), dataAt(pc))
-	check("fault-free", "DataMsgSendCount-vs-accepted-calls", int64(mt.DataMsgSendCount()), tA.accepted)
+	check("fault-free", "DataMsgSendCount-vs-accepted-calls-and-S9F1", int64(mt.DataMsgSendCount()), tA.accepted+s9)
 	check("fault-free", "DataMsgRecvCount", int64(mt.DataMsgRecvCount()), peerDataWritten.Load())
 	check("fault-free", "DataMsgErrCount", int64(mt.DataMsgErrCount()), tA.t3)
 	check("fault-free", "DataMsgDropNotSelectedCount", int64(mt.DataMsgDropNotSelectedCount()), tA.refused)
@@ -397,7 +410,7 @@ func c20One(env *fw.Env, i int64) {
 	check("recovered", "DataMsgInflightCount", mt.DataMsgInflightCount(), 0)
 	check("recovered", "Reconnecting", mt.Reconnecting(), 0)
 	check("recovered", "Reconnects", int64(mt.Reconnects()), 1)
-	if got, lo, hi := int64(mt.DataMsgSendCount()), dataAt(pc, pc2), tA.accepted+tB.accepted; got < lo || got > hi {
+	if got, lo, hi := int64(mt.DataMsgSendCount()), dataAt(pc, pc2), tA.accepted+tB.accepted+s9; got < lo || got > hi {
 		env.Violate("counter-DataMsgSendCount-recovered", fmt.Sprintf("DataMsgSendCount=%d outside [frames the peer received=%d, accepted calls=%d]", got, lo, hi), cs)
 	}
 	if got, want := int64(mt.DataMsgErrCount())-errBefore, tB.t3+tB.other; got != want {
